@@ -440,7 +440,7 @@ func (e *histEnv) labelsBefore(op Op) []string {
 		if fi := lst(op.A[1]); fi != nil && fi.IsDir() {
 			add("rename-onto-dir")
 		}
-	case "creat", "write", "chmod", "chown", "chtimes", "mkdirall":
+	case "creat", "creatread", "write", "chmod", "chown", "chtimes", "mkdirall":
 		if fi := lst(op.A[0]); fi != nil && fi.Mode()&fs.ModeSymlink != 0 {
 			add("through-final-symlink")
 		}
@@ -1160,6 +1160,7 @@ type HistGen struct {
 	NoRollback bool // C03: the twin tree is not rolled back
 	Ext        bool // C13: external modifications interleaved
 	Swap       bool // a directory with tracked content is replaced by a symlink to another directory and the old paths are used again
+	ReadBack   bool // Create composites that read the content back through the handle (not in fault sweeps: full traces)
 	Flat       bool // a FLAT link topology (every link points at a link-free path): names are drawn THROUGH the links; the resolver is exact there (Props.C16.resolve_exact_flat_links_partial), so no label applies and every oracle is on
 }
 
@@ -1272,7 +1273,7 @@ func genHistCase(r *RNG, g HistGen, umask int) *HistCase {
 	if g.Ext {
 		c.Tree = append(c.Tree, Entry{Path: "/zzkeep", Kind: "file", Mode: 0o644, MTime: oldBase + 77, Data: "keep-0"})
 	}
-	og := &OpGen{Mutating: allMutators, ReadOnly: g.ReadOnly, Unclean: true, Relative: g.Wild, Orig: map[string]Entry{}}
+	og := &OpGen{Mutating: allMutators, ReadOnly: g.ReadOnly, Unclean: true, Relative: g.Wild, Orig: map[string]Entry{}, ReadBack: g.ReadBack}
 	for _, e := range c.Tree {
 		og.Orig[e.Path] = e
 	}
@@ -1436,7 +1437,7 @@ func genHistCase(r *RNG, g HistGen, umask int) *HistCase {
 }
 
 func histGenFor(prop string, r *RNG) HistGen {
-	g := HistGen{Layering: "disjoint", NSteps: 8, Rollbacks: 1, ReadOnly: true}
+	g := HistGen{Layering: "disjoint", NSteps: 8, Rollbacks: 1, ReadOnly: true, ReadBack: histReadBack}
 	switch prop {
 	case "C07":
 		g.Rollbacks = 2 + r.Intn(2)
@@ -1472,10 +1473,16 @@ func histGenFor(prop string, r *RNG) HistGen {
 		g.Wild = false
 	}
 	if ((prop == "C16" || prop == "C03") && r.Chance(1, 3)) || ((prop == "C01" || prop == "C02" || prop == "C13" || prop == "C17" || prop == "C08" || prop == "C09") && r.Chance(1, 8)) {
-		g = HistGen{Layering: "disjoint", NSteps: g.NSteps, Rollbacks: g.Rollbacks, ReadOnly: true, Flat: true, NoRollback: g.NoRollback, Force: g.Force, Ext: g.Ext, Reload: g.Reload}
+		g = HistGen{Layering: "disjoint", NSteps: g.NSteps, Rollbacks: g.Rollbacks, ReadOnly: true, Flat: true, ReadBack: g.ReadBack, NoRollback: g.NoRollback, Force: g.Force, Ext: g.Ext, Reload: g.Reload}
 	}
 	return g
 }
+
+func init() { histReadBack = true }
+
+// histReadBack: whether histGenFor switches the read-back composites on (the hist stream does, the
+// fault sweeps build their HistGen themselves and do not)
+var histReadBack bool
 
 func streamHist(cfg *Config, res *Result) error {
 	r := newRNG(cfg.Seed, "hist"+cfg.Prop)
@@ -1717,7 +1724,7 @@ func realpathBelow(root, p string) (string, error) {
 // mutatedPath: the path argument of the (last) mutating base call the operation issued.
 func (e *histEnv) mutatedPath(op Op) string {
 	recs := e.baseSpy.Snapshot()
-	want := map[string]string{"creat": "create", "write": "openfile", "mkdir": "mkdir", "mkdirall": "mkdirall", "remove": "remove",
+	want := map[string]string{"creat": "create", "creatread": "create", "write": "openfile", "mkdir": "mkdir", "mkdirall": "mkdirall", "remove": "remove",
 		"rename": "rename", "symlink": "symlink", "chmod": "chmod", "chown": "chown", "lchown": "lchown", "chtimes": "chtimes"}[op.K]
 	if want == "" {
 		return ""
